@@ -189,6 +189,24 @@ func (r *c20Ref) untypedPassthrough() bool {
 	return false
 }
 
+// in all-predecessor mode a node that nothing leads to (no incoming edge, not a branch target) can never be triggered
+// in a meaningful way: such graphs are ill-formed there
+func (r *c20Ref) orphan() bool {
+	in := map[string]bool{}
+	for e := range r.edges {
+		in[e[1]] = true
+	}
+	for _, e := range r.brEdges {
+		in[e[1]] = true
+	}
+	for n := range r.nodes {
+		if !in[n] {
+			return true
+		}
+	}
+	return false
+}
+
 func c20Sequence(L int) {
 	ctx := context.Background()
 	vcfg("fifo", 1)
@@ -234,7 +252,7 @@ func c20Sequence(L int) {
 		ref.apply(op)
 	}
 	vassert(sticky1, "once a call has returned an error every later Add*/Compile call returns that same error: "+desc)
-	mustReject := ref.bad != "" || ref.starts == 0 || ref.ends == 0 || (dag && ref.cyclic()) || ref.untypedPassthrough()
+	mustReject := ref.bad != "" || ref.starts == 0 || ref.ends == 0 || (dag && ref.cyclic()) || ref.untypedPassthrough() || (dag && ref.orphan())
 	if mustReject {
 		vassert(err1 != nil, "ill-formed construction is rejected with an error: "+desc)
 	}
@@ -302,7 +320,7 @@ func VerifC20Tail() {
 		copts = append(copts, WithNodeTriggerMode(AllPredecessor))
 	}
 	r, err := g.Compile(ctx, copts...)
-	mustReject := ref.bad != "" || ref.starts == 0 || ref.ends == 0 || (dag && ref.cyclic()) || ref.untypedPassthrough()
+	mustReject := ref.bad != "" || ref.starts == 0 || ref.ends == 0 || (dag && ref.cyclic()) || ref.untypedPassthrough() || (dag && ref.orphan())
 	if mustReject {
 		vassert(err != nil, "ill-formed construction is rejected: a,b,START->a,a->b, "+desc+"b->END")
 		return
